@@ -113,6 +113,11 @@ verus_unit("divisorv", "divisorv", ["C16", "C17"], [
     "theorem_zero_set (specification level: on the trace domain the numerator of from_assertion vanishes at step i exactly when i is an asserted step - i == first_step, resp. i mod stride == first_step - for every trace length, relative to 'g has order exactly n' and the monoid laws, both hypotheses)"])
 
 
+verus_unit("contextv", "contextv", ["C17"], [
+    "AirContext::num_constraint_composition_columns (every trace length, every list of main / auxiliary constraint degrees with any cycles, every exemption count 1..=n: with d = highest evaluation degree - (n - exemptions) the degree of the quotient by the transition divisor, the result is the LEAST c >= 1 with c * n >= d + 1 - the committed columns hold every coefficient of the composition polynomial and none is surplus; no overflow / underflow)",
+    "TransitionConstraintDegree::get_evaluation_degree (base * (n - 1) + the sum over the cycles of (n / cycle) * (cycle - 1), every degree and trace length; no overflow)"])
+
+
 verus_unit("oodv", "oodv", ["C03", "C06", "C12", "C04"], [
     "TraceOodFrame::to_trace_states / TraceOodFrame::hash (what the coin absorbs for the out-of-domain trace frame: the hash of the current / next evaluations interleaved per column followed by the Lagrange kernel frame values, every width)",
     "OodFrame::parse (every main / auxiliary width up to 255, every number of evaluations, every Lagrange frame size, EVERY content of the three byte vectors, abstract element decoder: Ok exactly when each section is canonical - Lagrange section = size byte k + exactly k element encodings, k > 0 only with an auxiliary segment; trace-state section = the byte 2 + exactly 2 * (main + aux') encodings; evaluation section = exactly num_evaluations encodings; nothing may follow in any section - and then the rows are the de-interleaved decoded elements, exactly main + aux' wide; no overflow / underflow / out-of-range index on any input)",
